@@ -61,6 +61,40 @@ const DATA_LEN: usize = 0xa000;
 const CODE_LEN: u64 = 0x70;
 const A_OFF: u64 = 0x40;
 
+/// the functions of lib/translator/aarch64/{semantics,register}.rs an op class goes through (unit C03 matches failed
+/// obligations with witness lines through this list)
+fn related(op: &str) -> String {
+    let reg = ["get", "set", "get_register", "get_full", "operand_load", "operand_store", "operand_storing_width"];
+    let sh = ["shift", "maybe_shift", "lsl", "lsr", "asr", "ror", "imm_to_u64"];
+    let mem = ["mem_operand_address", "apply"];
+    let mut v: Vec<&str> = Vec::new();
+    let head: Vec<&str> = op.split('_').collect();
+    let first = if op.starts_with("seq_") { head.get(1).copied().unwrap_or("") } else { head.first().copied().unwrap_or("") };
+    let name: &str = match first {
+        "adds" | "cmn" => "adds", "subs" | "cmp" | "negs" => "subs", "add" => "add", "sub" | "neg" => "sub",
+        "mov" | "movz" | "movn" | "movk" | "orr" => "mov",
+        "ldr" | "ldur" | "ldar" | "ldlar" => "ldr", "ldrb" | "ldurb" | "ldarb" | "ldlarb" => "ldrb", "ldrh" | "ldurh" | "ldarh" | "ldlarh" => "ldrh",
+        "ldrsb" | "ldursb" => "ldrsb", "ldrsh" | "ldursh" => "ldrsh", "ldrsw" | "ldursw" => "ldrsw",
+        "str" | "stur" | "stlr" | "stllr" | "stlur" => "str", "strb" | "sturb" | "stlrb" | "stllrb" | "stlurb" => "strb", "strh" | "sturh" | "stlrh" | "stllrh" | "stlurh" => "strh",
+        "ldp" | "ldnp" => "ldp", "ldpsw" => "ldpsw", "stp" | "stnp" => "stp",
+        "b" => if head.len() > 1 && !op.starts_with("seq_") { "b_cc" } else { "b" },
+        "bl" | "blr" => "bl", "br" => "br", "ret" => "ret",
+        "cbz" | "cbnz" | "tbz" | "tbnz" => "cbz_cbnz_tbz_tbnz",
+        "prfm" => "nop",
+        "zr" => "set",
+        _ => "",
+    };
+    if !name.is_empty() { v.push(name); }
+    if op.starts_with("seq_subs") { v.push("subs"); v.push("b_cc"); }
+    if op.starts_with("seq_zr") { v.extend(["get", "set", "adds", "add", "subs", "ldr", "ldp", "mov", "str"]); }
+    match first { "cbz" => v.push("cbz"), "cbnz" => v.push("cbnz"), "tbz" => v.push("tbz"), "tbnz" => v.push("tbnz"), _ => {} }
+    v.extend(reg);
+    if ["adds", "subs", "add", "sub", "mov"].contains(&name) || name.starts_with("ld") || name.starts_with("st") { v.extend(sh); }
+    if name.starts_with("ld") || name.starts_with("st") { v.extend(mem); v.push("temp0"); v.push("temp1"); }
+    v.sort(); v.dedup();
+    format!("[{}]", v.iter().map(|s| format!("\"{}\"", s)).collect::<Vec<_>>().join(","))
+}
+
 fn mask(n: u32) -> u64 { if n >= 64 { u64::MAX } else { (1u64 << n) - 1 } }
 fn sint(v: u64, n: u32) -> i128 { let v = v & mask(n); if (v >> (n - 1)) & 1 == 1 { v as i128 - (1i128 << n) } else { v as i128 } }
 fn sext(v: u64, from: u32) -> u64 { sint(v, from) as i64 as u64 }
@@ -918,8 +952,8 @@ fn main() {
                 let pf = stat.printed_fields.entry(format!("{}:{}", kind, field)).or_insert(0);
                 if stat.printed < limit && (*pf < 2 || limit > 3) {
                     *pf += 1; stat.printed += 1;
-                    println!("{{\"witness\":true,\"op\":\"{}\",\"variant\":\"{}\",\"encoding\":\"{}\",\"asm\":\"{}\",\"state\":{},\"field\":\"{}\",\"expected\":\"{}\",\"got\":\"{}\",\"kind\":\"{}\",\"detail\":\"{}\"}}",
-                        case.op, var.name(), enc_s, esc(&asm_s), state_json(case, st), field, esc(exp), esc(got), kind, esc(detail));
+                    println!("{{\"witness\":true,\"op\":\"{}\",\"ops_related\":{},\"variant\":\"{}\",\"encoding\":\"{}\",\"asm\":\"{}\",\"state\":{},\"field\":\"{}\",\"expected\":\"{}\",\"got\":\"{}\",\"kind\":\"{}\",\"detail\":\"{}\"}}",
+                        case.op, related(&case.op), var.name(), enc_s, esc(&asm_s), state_json(case, st), field, esc(exp), esc(got), kind, esc(detail));
                 }
             };
             let lifted = match catch_unwind(AssertUnwindSafe(|| lift(var, &img, a))) {
